@@ -232,7 +232,7 @@ def c01(run):
               "datasets, windows of 1..35 steps with steps of 1..5 ticks, tick 0.5/1/15 s, per-query lookbacks) are replayed; their "
               "expected outcome is computed by TLC from PromQLRef during trace validation. distinct_nontrivial = structural scenarios on which PromQLRef agreed with Prometheus."),
         assumptions=["Prometheus v0.40.1 is the reference", "OPAQUE values are compared with the reference by the Go comparator (1e-9)"],
-        rnd=("compose", 3000, 12000), every=(250, 1500))
+        rnd=("compose", 2000, 12000), every=(250, 1500))
 
 
 ALL_GENS = [("Gen_Selector", "sel", 16, 24, ["EmitSel"], 1000), ("Gen_Window", "win", 8, 16, ["EmitWin"], 1000),
